@@ -560,8 +560,13 @@ pub fn table_defs() -> Vec<SubjectDef> {
             p
         };
         let skips = vec![mk("[ \\n]+", 17, 71, 2)];
-        let variants = vec![vec![mk("[0-9]+", 12, 72, 0)], vec![mk("[a-c]+", 1, 73, 1)], vec![mk("[x-z]+", 5, 74, 3)], vec![mk("-+", 0, 75, 2)], vec![PatSpec::token(LitSpec::str("!"))]];
-        let has_value = vec![false, true, false, false, false, false];
+        // .. and longer patterns running through the same loops: a run followed by text that starts the longer pattern and
+        // then fails falls back to the whole run
+        let variants = vec![
+            vec![mk("[0-9]+", 12, 72, 0)], vec![mk("[a-c]+", 1, 73, 1)], vec![mk("[x-z]+", 5, 74, 3)], vec![mk("-+", 0, 75, 2)], vec![PatSpec::token(LitSpec::str("!"))],
+            vec![mk("[0-9]+\\.[0-9]+", 13, 76, 0)], vec![mk("[a-c]+-[a-c]+", 0, 77, 1)],
+        ];
+        let has_value = vec![false, true, false, false, false, false, true, false];
         out.push(SubjectDef { family: "callbacks".into(), def: DefSpec { utf8: true, subpatterns: vec![], skips, variants }, skip_log: false, has_value, error_cb: false, twin: false });
     }
     out
